@@ -1,5 +1,6 @@
 import RedisVerif.Driver.Codec
 import RedisVerif.Model.Ring
+import RedisVerif.Model.Adaptive
 
 /-
   C19 sub-driver (stateful).  The model HASHES ITSELF: virtual-node positions are
@@ -32,6 +33,11 @@ import RedisVerif.Model.Ring
     LOOP <me> <npeers> <sel> <part> <enabled> <m> <keypos>*
                                                    one tick of a gossip loop of production/gossip_manager.rs
                                                    (state with the from_config router)   → loop <peer index>:<keypos,…>|…
+    ADNEW <base> <hot> <recalc> <window> <threshold> <cleanup> <max_tracked>
+                                                   AdaptiveReplicationManager::new       → ad <summary>
+    ADOBS <keyhex> <write 0|1> <now> | ADRECALC <now> | ADCLEAR
+                                                   observe / force_recalculate / clear   → ad <summary>
+    ADQ <now> <m> <keyhex>*                        get_rf_for_key : is_hot per key       → aq <rf>:<0|1>|…
     K <rf|-> <m> <keypos>*                         get_replicas[_with_rf] per key        → r a,b|c,d|…
     T <sender> <m> <keypos>*                       get_gossip_targets per key            → t a,b|…
     RNEW <self> <selective> <k> <id>*              GossipRouter::new (address i = peer i)→ peers id:addr …
@@ -52,8 +58,17 @@ structure St where
   vring : VRing
   router : Option Router
   g : GState
+  ad : Adaptive.Mgr
 
-def St.init : St := { vring := ⟨Ring.empty 0 0, 0⟩, router := none, g := GState.new 0 none }
+def St.init : St :=
+  { vring := ⟨Ring.empty 0 0, 0⟩, router := none, g := GState.new 0 none,
+    ad := Adaptive.Mgr.new 0 0 0 ⟨0, 0, 0, 0⟩ }
+
+/-- summary of an `AdaptiveReplicationManager`: `stats()` (tracked keys, current hot keys, promotions,
+    demotions) and `get_hot_key_updates()` sorted by key -/
+def showAd (m : Adaptive.Mgr) : String :=
+  s!"ad rf={m.baseRf}/{m.hotRf} tracked={m.det.counts.length} hot={m.overrides.length} prom={m.promotions} dem={m.demotions} ov="
+    ++ ",".intercalate (m.overrides.map fun p => s!"{showKey p.1}:{p.2}")
 
 def St.ring (st : St) : HashRing := st.vring.ring
 
@@ -165,6 +180,34 @@ def cmd (st : St) : P (St × String) := do
     let ov : NMap Nat := hs.foldl (fun m k => NMap.insert k hot m) []
     let f := fun k => let rf := rfForKey ov base k; s!"{rf}:{showList (getReplicasWithRf st.ring k rf)}"
     pure (st, "a " ++ "|".intercalate (ks.map f))
+  | "ADNEW" => do
+    let base ← nat
+    let hot ← nat
+    let recalc ← nat
+    let window ← nat
+    let threshold ← nat
+    let cleanup ← nat
+    let maxTracked ← nat
+    let m := Adaptive.Mgr.new base hot recalc ⟨window, threshold, cleanup, maxTracked⟩
+    pure ({ st with ad := m }, showAd m)
+  | "ADOBS" => do
+    let k ← strKey
+    let w ← nat
+    let now ← nat
+    let m := st.ad.observe k (w != 0) now
+    pure ({ st with ad := m }, showAd m)
+  | "ADRECALC" => do
+    let now ← nat
+    let m := st.ad.recalculate now
+    pure ({ st with ad := m }, showAd m)
+  | "ADCLEAR" => do
+    let m := st.ad.clear
+    pure ({ st with ad := m }, showAd m)
+  | "ADQ" => do
+    let now ← nat
+    let n ← nat
+    let ks ← repeatP n strKey
+    pure (st, "aq " ++ "|".intercalate (ks.map fun k => s!"{st.ad.rfForKey k}:{if st.ad.det.isHot k now then 1 else 0}"))
   | "STATS" => do
     let ks ← natList
     let (t, mn, mx) := distStats st.ring ks
